@@ -683,12 +683,12 @@ public:
 	bool reserve(long len)
 	{
 		content<T> *c;
-		if (!(c = _ref.detach())) {
-			return false;
-		}
+		/* relative to current length */
 		if (len < 0
 		    && (len += length()) < 0) {
-			_ref.set_instance(c);
+			return false;
+		}
+		if (!(c = _ref.detach())) {
 			return false;
 		}
 		content<T> *n;
